@@ -13,7 +13,7 @@ EXPLANATION = ("The property is a conjunction over every handler of every frame 
                "casts and calls reach only the cell returned on the Some edge of the advertised-pid lookup, which answers Some only for pids in the "
                "advertised set that support remoting, and that set is written only from local lifecycle events and the post-auth scan; GetSessions lists "
                "only sessions in the authenticated set, which only the commit function fills.")
-TRUSTED = ["challenge_digest (SHA-256 over cookie and challenge) -- cryptographic strength is not analysed", "prost decoding of frames"]
+TRUSTED = ["SHA-256 (sha2 crate): cryptographic strength is not analysed; which bytes are hashed is (C17.R8)", "prost decoding of frames"]
 ASSUMPTIONS = ["that sequences of frames cannot reach Ok is decided by the (finite) transition table, not by enumerating sequences"]
 
 DOC = {
@@ -23,6 +23,7 @@ DOC = {
  "C17.R4": "every assignment to the session's auth field is AsClient(next(..)) / AsServer(next(..)/start_challenge(..)) or init(); handle_auth returns early when already authenticated",
  "C17.R5": "allow-list: send_serialized receivers in the Cast/Call arms originate from the Some payload of authorized_local_actor, which returns Some only on advertised.contains(pid) and supports_remoting; the advertised set is written only from local pid events and the post-auth scan",
  "C17.R6": "GetSessions inserts only on the true edge of authenticated_sessions.contains; that set is inserted into only by commit_authenticated, called only from the ConnectionAuthenticated arm",
+ "C17.R8": "challenge_digest feeds the hash the complete cookie (as_bytes of the parameter, no slicing/capping) and the complete challenge; the hash consumes the assembled buffer whole",
  "C17.R7": "a Close result stops the session (handle_auth's is_close edge calls stop on itself and the transport)",
 }
 
@@ -428,6 +429,47 @@ def r7(run, db):
         run.check(good, "is_close|only-Close", "is_close() is true only for the Close variants", "is_close() changed", g.where())
 
 
+def r8(run, db):
+    """the handshake proves knowledge of the *whole* cookie: the digest input contains the complete secret and the complete
+    challenge (no range-slicing / length cap between the parameters and the hash).  Otherwise cookies that differ only
+    outside the hashed part are interchangeable (C17-4).  The strength of SHA-256 itself is trusted."""
+    f = run.need(db.fn("ractor_cluster::hash::challenge_digest"), "hash::challenge_digest")
+    run.saw(len(f.blocks), f)
+    whole_secret = lambda op: (lambda rs: bool(rs) and all(r["k"] == "call" and r["call"].matches(r"str>::as_bytes$|String::as_bytes$|AsRef<\[u8\]>>::as_ref$") and
+                                                        all(x["k"] == "arg" and x["local"] == 1 for x in f.origins(r["call"].args[0])) for r in rs))(f.origins(op))
+    whole_chal = lambda op: (lambda rs: bool(rs) and all(r["k"] == "call" and r["call"].matches(r"::to_(be|le|ne)_bytes$") and
+                                                      all(x["k"] == "arg" and x["local"] == 2 for x in f.origins(r["call"].args[0])) for r in rs))(
+        f.origins(op, through=lambda c: 0 if c.matches(r"Deref>::deref$|AsRef") else None))
+    dg = [c for c in f.calls() if (c.callee or "").endswith("Digest::digest")]
+    up = [c for c in f.calls() if re.search(r"Digest::(update|chain_update)$", c.callee or "")]
+    run.check(len(dg) + len(up) >= 1, "hash-call", "challenge_digest hashes with sha2", "no sha2 digest/update call found in challenge_digest", f.where())
+    srcs = []
+    for c in dg:
+        roots = f.origins(c.args[0], through=lambda cc: 0 if cc.matches(r"Deref>::deref$|Vec::<T, A>::as_slice$") else None)
+        bufs = set()
+        okbuf = bool(roots)
+        for r in roots:
+            if r["k"] == "call" and r["call"].matches(r"vec::from_elem$|Vec::<T>::new$|Vec::<T>::with_capacity$|slice::<impl \[T\]>::concat$|\[T\]>::to_vec$"):
+                bufs.add(r["call"].dest[0])
+            elif r["k"] in ("agg", "repeat"):
+                bufs.add(r["stmt"]["lhs"][0])
+            else:
+                okbuf = False
+        run.check(okbuf, "digest-input-is-whole-buffer", "the hash consumes the assembled buffer as a whole",
+                  "the hash input is a derived view of the buffer (%s): part of the assembled cookie/challenge bytes is not hashed" % [r["call"].name.split("::")[-1] if r["k"] == "call" else r["k"] for r in roots], c.where())
+        for w in f.calls():
+            if w.matches(r"\[T\]>::copy_from_slice$|Vec::<T, A>::extend_from_slice$|\[T\]>::clone_from_slice$"):
+                droots = f.origins(w.args[0], through=lambda cc: 0 if cc.matches(r"index_mut$|DerefMut>::deref_mut$|IndexMut") else None)
+                if any(r.get("local") in bufs or (r["k"] == "call" and r["call"].dest[0] in bufs) or (r["k"] in ("agg", "repeat") and r["stmt"]["lhs"][0] in bufs) for r in droots):
+                    srcs.append(w.args[1])
+    for c in up:
+        srcs.append(c.args[1])
+    run.check(any(whole_secret(o) for o in srcs), "secret-hashed-whole", "the complete cookie (as_bytes of the parameter, unsliced) is part of the hash input",
+              "no hash input is the complete cookie: the bytes fed to the hash are a slice / capped prefix of it, so different cookies sharing that part authenticate each other", f.where())
+    run.check(any(whole_chal(o) for o in srcs), "challenge-hashed-whole", "the complete challenge is part of the hash input", "the challenge is not (wholly) part of the hash input: replies can be replayed", f.where())
+    run.anchor("hash input fragments", len(srcs), 2, f.where())
+
+
 Q = ["rc"]
 TH = ["rc", "rcatr"]
-RULES = [{"id": "C17.R%d" % i, "fn": f, "quick": Q, "thorough": TH} for i, f in enumerate([r1, r2, r3, r4, r5, r6, r7], 1)]
+RULES = [{"id": "C17.R%d" % i, "fn": f, "quick": Q, "thorough": TH} for i, f in enumerate([r1, r2, r3, r4, r5, r6, r7, r8], 1)]
